@@ -283,7 +283,8 @@ def gen_fault(r, spec, inp):
     if r.chance(0.5) and extra and kind == 'unknown_flag':
         argv = [argv[0]] + extra + argv[1:]
     ops.append({'op': 'cli', 'client': 'C', 'cmd': cmd, 'argv': argv,
-                'input': the_in, 'cs': cs, 'out': out, 'fault': kind})
+                'input': the_in, 'cs': cs, 'out': out, 'fault': kind,
+                'optimized': r.chance(0.3)})
     return ops
 
 
@@ -321,7 +322,12 @@ def op_stale_cwd(ctx, op):
     ctx.events.append({'i': op['i'], 'op': 'stale_output'})
 
 
-def run_cli(ctx, argv, stdin_text=None):
+def run_cli(ctx, argv, stdin_text=None, optimized=False):
+    if optimized:
+        # the `tdda` command in an interpreter started with -O
+        from sim.optwin import OptimizedTwin
+        with OptimizedTwin(ctx.stats['faults']):
+            return run_cli_inner(ctx, argv, stdin_text)
     enc = getattr(ctx, 'default_encoding', None)
     if enc:
         # a process whose preferred text encoding is not UTF-8
@@ -459,7 +465,9 @@ def op_cli(ctx, op):
         # nothing is promised about an invocation cut short by an I/O
         # error; the next one is checked in full
         return
-    status, exc, ret, out, err = run_cli(ctx, real_argv, stdin_text)
+    status, exc, ret, out, err = run_cli(
+        ctx, real_argv, stdin_text,
+        optimized=bool(op.get('fault') and op.get('optimized')))
     if canon(argv) != argv:
         ctx.stats['probes']['alternative_flag_spellings'] += 1
     # from here on argv is the canonical spelling (what the flags mean)
